@@ -182,3 +182,17 @@ fn f62_canary_must_fail() {
     let (a, b) = (any_rep(), any_rep());
     assert!(add(a, b) < M);
 }
+
+// ---- quadratic extension over the 62-bit field: the multiplier-free function, checked directly ----
+#[kani::proof]
+fn f62_ext2_frobenius_contract() {
+    let (a, b) = (any_rep(), any_rep());
+    let r = <BaseElement as ExtensibleField<2>>::frobenius([BaseElement(a), BaseElement(b)]);
+    assert!(r[0].0 < M2 && r[1].0 < M2);
+    let (ra, rb) = (res(a), res(b));
+    let t = ra as u128 + rb as u128;
+    assert!(res(r[0].0) as u128 == if t >= M as u128 { t - M as u128 } else { t });
+    assert!(res(r[1].0) == if rb == 0 { 0 } else { M - rb });
+    let rr = <BaseElement as ExtensibleField<2>>::frobenius(r);
+    assert!(res(rr[0].0) == ra && res(rr[1].0) == rb);
+}
